@@ -640,10 +640,34 @@ func genC20Ret(r *Rng) c20In {
 	return c20In{Kind: "retval", Ret: ret}
 }
 
+// c20LoadFactor measures how much slower than an idle machine this process currently runs (a fixed
+// CPU loop of roughly 40 ms idle plus a 50 ms sleep): the timing slack is scaled by it so that a
+// loaded machine does not turn scheduling delay into a false alarm.
+func c20LoadFactor() float64 {
+	t0 := time.Now()
+	x := uint64(1)
+	for i := 0; i < 40_000_000; i++ {
+		x = x*6364136223846793005 + 1442695040888963407
+	}
+	time.Sleep(50 * time.Millisecond)
+	el := time.Since(t0).Seconds()
+	if x == 42 {
+		el += 1e-9
+	}
+	f := el / 0.09
+	if f < 1 {
+		f = 1
+	}
+	if f > 30 {
+		f = 30
+	}
+	return f
+}
+
 func genC20Timing(r *Rng) c20In {
 	fams := []string{"tight", "tight_pcall", "tight_xpcall", "recursion", "recursion_pcall", "pingpong", "cowrap", "coinner", "format",
 		"concat", "sortcmp", "gsubfn", "regexapi", "split", "doubling", "tailspin", "pattern_find", "pattern_match", "pattern_gsub"}
-	in := c20In{Kind: "timing", Family: fams[r.Intn(len(fams))], TimeoutS: 1, SlackMs: 2000}
+	in := c20In{Kind: "timing", Family: fams[r.Intn(len(fams))], TimeoutS: 1, SlackMs: int(2000 * c20LoadFactor())}
 	switch in.Family {
 	case "tailspin":
 		in.Size = 4000000
